@@ -26,7 +26,11 @@ ASSUMPTIONS = ["field values and thresholds are small dyadic numbers / NaN / inf
                "separately tagged batches) holding only values the dtype represents exactly (NaN / inf in float storage only); "
                "the model and the spec work on the exact values of the stored numbers, so the expected score does not depend on "
                "the storage dtype; thresholds stay float64 numbers the dtype mostly cannot represent (0.5, 2.5, 0.1, 1+2^-30, "
-               "out-of-range for int8 / uint8), passed as Python float (default), np.float64, Python int or np.float32"]
+               "out-of-range for int8 / uint8), passed as Python float (default), np.float64, Python int or np.float32",
+               "large windows (area > 4096 .. > 65535; thorough > 2^24): 0/1 fields that are all events except a few cells and one "
+               "rectangle; expected value = the window-count definition by an exact integer closed form in the harness (oracle "
+               "only: neither the Lean spec nor the model is evaluated on these sizes); float64 sums of squared counts stay "
+               "below 2^53, so the comparison tolerance 1e-9 is not rounding-limited"]
 MANIFEST = dict(
     level="proof",
     text="Kernel-checked Lean theorems, for all field shapes and windows, about a model of the FSS pipeline whose scalar tails "
@@ -42,7 +46,9 @@ MANIFEST = dict(
          "Both ties also run with the fields stored as int64 / int32 / int16 / int8 / bool / float32 / uint8 / uint16 (fcst and obs "
          "also in different dtypes) against thresholds the dtype cannot represent, with 0/1 fields of every dtype through "
          "fss_2d_binary(check_boolean=False), and with more events than a narrow dtype can count; expected values come from the exact "
-         "stored values, and the same values stored as float64 must give the same result.",
+         "stored values, and the same values stored as float64 must give the same result.  Large windows (a window holding more "
+         "than 4096 / 32767 / 46340 / 65535 events, thorough also 2^24) are compared on all three entry points with an exact "
+         "integer closed form of the window-count definition (harness oracle only, not Lean).",
     note="Trusted: Lean kernel; propext/Classical.choice/Quot.sound; py2lean + tools/gen/Fss.py; SV.Fl; the hand model of numpy cumsum / "
          "clip / fancy indexing / nanmean and of xarray.apply_ufunc(vectorize) + gather_dimensions (compared, not proved); harness "
          "tolerance 1e-9 on dyadic inputs.  Not modelled: dask inputs, differently ordered coordinates (F13, C04), non-boolean input of "
@@ -61,6 +67,9 @@ RULE = ("exhaustive over all shapes up to 3x4 (quick) / 4x4 (thorough) x all win
         "the four operators and the non-representable thresholds in rotation, ALL two-valued fields around such a threshold "
         "for shapes up to 2x2, random shapes up to 6x7, fcst/obs in different dtypes, multi-field arrays through fss_2d / "
         "fss_2d_binary (bool and 0/1 in other dtypes), dense fields with more events than int8 / uint8 / float16 can count; "
+        "large windows: densely filled fields a few cells larger than a window whose area just exceeds 2^12 (float32 squares), "
+        "2^15-1 (int16 counts), 46340 (int32 squares), 2^16-1 (uint16 counts) [thorough: 2^24, float32 counts], both paddings, "
+        "three entry points, eight storage dtypes in rotation, compared with the exact closed-form window count; "
         "distinct = distinct canonical case; non-trivial = at least one event in either field")
 
 OPS = {"gt": np.greater, "ge": np.greater_equal, "lt": np.less, "le": np.less_equal}
@@ -1137,6 +1146,195 @@ def large_cases(ctx, boost=False):
     return out
 
 
+# ---- large windows: a window holding more events than a narrow accumulator can count or SQUARE exactly.  The sums of the
+# score are sums of SQUARED window counts, so the critical window areas are those where the count or its square leaves a
+# number type: count^2 > 2^24 (float32 squares; area > 4096), count > 32767 (int16), count^2 > 2^31 (int32 squares;
+# area > 46340), count > 65535 (uint16), [thorough] count > 2^24 (float32 counts).  The small-shape streams (windows <= 9x9)
+# never get there.  The fields are described, not listed: every cell is an event except the listed `holes` and one
+# rectangular `block` of non-events, so the replay stays small; the expected value is the window-count definition in exact
+# integer arithmetic by an independent closed form (window ∩ field area − holes in the window − window ∩ block area, no
+# summed-area table), with the property's symmetric zero extension for the padded mode.  This class is compared by the
+# oracle only (the Lean spec counts cell by cell: 10^9 steps for one padded 220x220 window image).
+BIG_AREAS = [(2 ** 12, "float32-squares"), (2 ** 15 - 1, "int16-counts"), (46340, "int32-squares"), (2 ** 16 - 1, "uint16-counts")]
+BIG_DT = ["float64", "float64", "float32", "int8", "bool", "int64", "int32", "uint8"]
+BIG_ENTRIES = ["single", "fss_2d", "binary"]
+
+
+def big_array(c, which):
+    """(values, events) of the described field: event cells hold `hi`, the holes and the block hold `lo`"""
+    H, W = c["H"], c["W"]
+    ev = np.ones((H, W), dtype=bool)
+    blk = c.get("block_" + which)
+    if blk:
+        ev[blk[0]:blk[1], blk[2]:blk[3]] = False
+    for (i, j) in c["holes_" + which]:
+        ev[i, j] = False
+    hi, lo = (1.0, 0.0) if c["op"] in ("gt", "ge") else (0.0, 1.0)
+    return np.where(ev, hi, lo), ev
+
+
+def big_counts(c, which, ext):
+    """the window-count image of the described field by the closed form, exact (int64; every count <= H*W < 2^31, the sums
+    of squares < 2^62 are taken as Python integers).  ext: "none" | "sym" (⌊h/2⌋ on each side) | "code" (⌊h/2⌋ before,
+    h − ⌊h/2⌋ after)"""
+    H, W, h, w = c["H"], c["W"], c["h"], c["w"]
+    pt, pb, pl, pr = {"none": (0, 0, 0, 0), "sym": (h // 2, h // 2, w // 2, w // 2),
+                      "code": (h // 2, h - h // 2, w // 2, w - w // 2)}[ext]
+    r0 = np.arange(pt + H + pb + 1 - h, dtype=np.int64) - pt          # first field row of the window (may be negative)
+    c0 = np.arange(pl + W + pr + 1 - w, dtype=np.int64) - pl
+
+    def overlap(a0, n, lo, hi):       # number of integers in [a0, a0+n) ∩ [lo, hi)
+        return np.clip(np.minimum(a0 + n, hi) - np.maximum(a0, lo), 0, None)
+
+    img = np.outer(overlap(r0, h, 0, H), overlap(c0, w, 0, W))
+    blk = c.get("block_" + which)
+    if blk:
+        img = img - np.outer(overlap(r0, h, blk[0], blk[1]), overlap(c0, w, blk[2], blk[3]))
+    for (i, j) in sorted({(int(i), int(j)) for i, j in c["holes_" + which]}):
+        if blk and blk[0] <= i < blk[1] and blk[2] <= j < blk[3]:
+            continue                  # already a non-event
+        img = img - np.outer(((r0 <= i) & (i < r0 + h)).astype(np.int64), ((c0 <= j) & (j < c0 + w)).astype(np.int64))
+    return img
+
+
+def big_expected(c, ext):
+    pf, po = big_counts(c, "f", ext), big_counts(c, "o", ext)
+    assert pf.min() >= 0 and po.min() >= 0 and max(pf.max(), po.max()) < 2 ** 31 and pf.size < 2 ** 31
+    sf = sum(int(x) for x in np.sum(pf * pf, axis=1))
+    so = sum(int(x) for x in np.sum(po * po, axis=1))
+    sd = sum(int(x) for x in np.sum((po - pf) * (po - pf), axis=1))
+    return core.Fraction(0) if sf + so == 0 else 1 - core.Fraction(sd, sf + so)
+
+
+def impl_big(c, swap=False):
+    from scores.spatial import fss_2d, fss_2d_binary, fss_2d_single_field
+    (fv, fe), (ov, oe) = big_array(c, "f"), big_array(c, "o")
+    if swap:
+        fv, fe, ov, oe = ov, oe, fv, fe
+    dt = c.get("dt")
+    sd = ("".join(["y"]), "".join(["", "x"]))
+    with np.errstate(all="ignore"), warnings.catch_warnings():
+        warnings.simplefilter("ignore")
+        if c["entry"] == "binary":
+            if dt in (None, "float64", "bool"):
+                fb, ob, kw = fe, oe, {}
+            else:
+                fb, ob, kw = fe.astype(dt), oe.astype(dt), {"check_boolean": False}
+            return float(fss_2d_binary(xr.DataArray(fb, dims=["y", "x"]), xr.DataArray(ob, dims=["y", "x"]),
+                                       window_size=(c["h"], c["w"]), spatial_dims=sd, zero_padding=c["pad"], **kw).values)
+        f, o = (fv, ov) if dt in (None, "float64") else (fv.astype(dt), ov.astype(dt))      # 0.0 / 1.0: exact in every dtype
+        if c["entry"] == "fss_2d":
+            return float(fss_2d(xr.DataArray(f, dims=["y", "x"]), xr.DataArray(o, dims=["y", "x"]), event_threshold=0.5,
+                                window_size=(c["h"], c["w"]), spatial_dims=sd, zero_padding=c["pad"],
+                                threshold_operator=OPS[c["op"]]).values)
+        return float(fss_2d_single_field(f, o, event_threshold=0.5, window_size=(c["h"], c["w"]), zero_padding=c["pad"],
+                                         threshold_operator=OPS[c["op"]]))
+
+
+def gen_big(rng, area, label, pad, k, huge=False):
+    """a field only a few cells larger than a window whose area just exceeds `area`"""
+    side = math.isqrt(area) + 1
+    if huge:
+        h = w = side
+    else:
+        h = side + rng.randint(0, 6)
+        w = -(-(area + 1) // h) + rng.randint(0, 6)          # h * w > area
+        if pad and rng.random() < 0.75:                     # the padded clause of the property: even windows
+            h, w = h + h % 2, w + w % 2
+    full = rng.random() < 0.2
+    H, W = (h, w) if full else (h + rng.randint(1, 5), w + rng.randint(1, 5))
+
+    def holes():
+        return sorted({(rng.randrange(H), rng.randrange(W)) for _ in range(rng.randint(0, 5))})
+
+    def block():
+        if rng.random() < 0.4:       # nearly everything is a non-event: the partner of a dense field, score far from 1
+            return [rng.randint(0, 3), H - rng.randint(0, 3), rng.randint(0, 3), W - rng.randint(0, 3)]
+        i0, j0 = rng.randrange(H), rng.randrange(W)
+        return [i0, min(H, i0 + rng.randint(1, max(1, H // 3))), j0, min(W, j0 + rng.randint(1, max(1, W // 3)))]
+
+    c = dict(kind="bigwin", H=H, W=W, h=h, w=w, pad=bool(pad), thr=0.5, op=list(OPS)[k % 4], boundary=label,
+             holes_f=holes(), holes_o=holes(), dt=BIG_DT[k % len(BIG_DT)], entry=BIG_ENTRIES[k % 3])
+    r = rng.random()
+    if r < 0.25:
+        c["holes_o"] = c["holes_f"]                          # identical fields with events: the score is 1
+    elif r < 0.85:
+        c["block_" + rng.choice("fo")] = block()             # far from 1: the three sums all matter
+    if c["entry"] == "binary":
+        c["op"] = "gt"
+    if c["dt"] in UNSIGNED_DT:
+        c["unsigned"] = True
+    if huge:
+        c["dt"], c["entry"] = "float32", ("binary" if k % 2 else "single")
+        c.pop("unsigned", None)
+    return c
+
+
+def big_cases(ctx, boost=False):
+    rng = ctx.rng
+    out, k = [], 0
+    reps = 3 if (ctx.thorough or boost) else 1
+    for _ in range(reps):
+        for area, label in BIG_AREAS:
+            for pad in (False, True):
+                for _ in range(2):
+                    out.append(gen_big(rng, area, label, pad, k))
+                    k += 1
+    # the int32-squares boundary through every entry point and both paddings with an all-event pair (the score is exactly 1)
+    for k2, (entry, pad) in enumerate(itertools.product(BIG_ENTRIES, (False, True))):
+        c = gen_big(rng, 46340, "int32-squares", pad, k2)
+        c.update(entry=entry, dt="float64", holes_f=[], holes_o=[], op="gt")
+        c.pop("block_f", None), c.pop("block_o", None), c.pop("unsigned", None)
+        out.append(c)
+    if ctx.thorough:
+        # more events in one window than float32 counts exactly (2^24): 0/1 fields stored as float32, no padding
+        for k3 in range(2):
+            out.append(gen_big(rng, 2 ** 24, "float32-counts", False, k3, huge=True))
+    return out
+
+
+def check_bigwin(ctx, cases, batch="large-window-vs-window-count"):
+    for c in cases:
+        b = batch + ("-unsigned" if c.get("unsigned") else "")
+        ctx.case(b, c, nontrivial=True)
+        ctx.tag("large-window:" + str(c.get("boundary")))
+        ctx.tag("large-window-entry:" + c["entry"])
+        ctx.tag("large-window-" + ("pad" if c["pad"] else "nopad"))
+        if c.get("dt"):
+            ctx.tag("dtf:" + c["dt"])
+        site = {"single": "fss_2d_single_field", "fss_2d": "fss_2d", "binary": "fss_2d_binary"}[c["entry"]]
+        tags = dict({"pad": c["pad"], "dt": c.get("dt"), "boundary": c.get("boundary"), "window_area": c["h"] * c["w"]},
+                    **({"storage": "unsigned"} if c.get("unsigned") else {}))
+        spec = big_expected(c, prop_ext(c))
+        code = big_expected(c, "code") if odd_pad(c) else None
+        try:
+            v = impl_big(c)
+        except Exception as ex:
+            ctx.fail(b, "property", site, "exception", c, observed=core.exc_class(ex) + ": " + str(ex)[:200], expected=spec, tags=tags)
+            continue
+        if not core.close(v, spec):
+            if code is not None and core.close(v, code):
+                ctx.fail(b, "property", F5_SITE, F5_SIG, c, observed=v, expected=spec, tags=dict(tags, **dict(F5_TAGS, entry=site)),
+                         theorem="fss_pad_counterexample")
+            else:
+                ctx.fail(b, "property", site, "value-differs-from-window-count", c, observed=v, expected=spec, tags=tags,
+                         theorem="fss_nopad_eq_spec" if not c["pad"] else "fss_pad_partial")
+            continue
+        if not (0.0 <= v <= 1.0):
+            ctx.fail(b, "property", site, "out-of-range", c, observed=v, expected="[0,1]", tags=tags)
+        same = c["holes_f"] == c["holes_o"] and c.get("block_f") == c.get("block_o")
+        if same and big_array(c, "f")[1].any() and not core.close(v, core.Fraction(1)):
+            ctx.fail(b, "property", site, "identical-fields-not-1", c, observed=v, expected=1, tags=tags)
+        if c["H"] * c["W"] <= 10 ** 6:
+            try:
+                v2 = impl_big(c, swap=True)
+                if not core.close_ff(v, v2):
+                    ctx.fail(b, "property", site, "not-invariant-under-swap", c, observed={"value": v, "swap": v2}, expected="equal",
+                             tags=tags)
+            except Exception as ex:
+                ctx.fail(b, "property", site, "exception", c, observed=core.exc_class(ex) + ": " + str(ex)[:200], expected=v, tags=tags)
+
+
 def oracle(ctx, boost):
     per = ctx.n(2, 3)
     cases = [dict(F5_WITNESS)]
@@ -1163,6 +1361,7 @@ def oracle(ctx, boost):
     check_binary_eq(ctx, [gen_multi(ctx.rng, dt=UNSIGNED_DT[i % 2], unsigned=True) for i in range(ctx.n(20, 200))],
                     batch="binary-entry-equals-thresholding-unsigned")
     check_large(ctx, large_cases(ctx, boost))
+    check_bigwin(ctx, big_cases(ctx, boost))
 
 
 def replay(ctx, payload):
@@ -1182,6 +1381,8 @@ def replay(ctx, payload):
         c["o"] = arr(case["o"]).tolist()
         c["thr"] = float(core.parse_fl(case["thr"])) if isinstance(case["thr"], str) else float(case["thr"])
         check_large(sub, [c])
+    elif case.get("kind") == "bigwin":
+        check_bigwin(sub, [dict(case)])
     elif case.get("kind") == "multi":
         if str(payload.get("batch", "")).startswith("binary-entry-equals-thresholding"):
             check_binary_eq(sub, [case])
